@@ -168,6 +168,9 @@ TRANSFORM_FORMULAS = [
     "cr(a, df=4)", "cc(a, df=4)", "cr(a, df=3, constraints='center') + A", "C(A, contr.sum) + a", "C(A, contr.helmert):b", "C(A, contr.poly) + center(b)",
     "C(A, contr.diff) + C(B, contr.treatment('v'))", "C(A, contr.SAS) * b", "standardize(a) + b", "a:center(b) + A", "center(scale(a)) + poly(b, 2)", "np.log(c) + I(a**2) + A:B",
     "scale(center(a) + b)", "hashed(A, levels=4) + a",
+    # a stateful transform applied to the multi-column result of another one (per-column nested state under integer / string keys)
+    "center(bs(a, df=4))", "scale(cr(a, df=3)) + b", "center(poly(a, 2)) + A", "scale(bs(a, df=3, degree=1)):A",
+    "poly(center(a), 2) + scale(poly(b, 2))", "center(cc(a, df=3))",
 ]
 
 
